@@ -7,7 +7,7 @@ use proptest::prelude::*;
 use serde_json::{json, Value};
 use unic_locale::{LanguageIdentifier, Locale};
 
-pub const RULE: &str = "Domain: pairs (s, s') where s is a proptest-generated well-formed locale (G2), the same with one injected token-level defect no reordering can repair ('.' inside a subtag or an over-long subtag, inside a variant / attribute / type / tvalue / private tag), or a near-miss byte string (G3, case/separator transforms only); s' is s under a random case mask on ASCII letters, a random '-'/'_' mask, a permutation (with optional duplication) of the variant block and of the attribute block, a permutation of keyword blocks and of tfield blocks (distinct keys), a permutation of the tlang's variants and a swap of the whole -u- and -t- extensions - structural transforms are applied to the AST so both renderings denote the same identifier. Plus, exhaustively, every 'en-' + core-alphabet sequence paired with its upper-cased, '_'-separated image and, when it holds both -u- and -t-, with the image in which the two extensions are swapped. Oracle (metamorphic): both fail, or both parse to == values with identical to_string(), for Locale, (on the language-id part) LanguageIdentifier and (on the extension part alone) ExtensionsMap::from_bytes. Non-trivial = s != s' bytewise and a structural transform moved an element or the masks changed >= 2 positions. Distinctness: enumerated pairs by construction, generated pairs via a hash set over (s, s').";
+pub const RULE: &str = "Domain: pairs (s, s') where s is a proptest-generated well-formed locale (G2), the same with one injected token-level defect no reordering can repair ('.' inside a subtag or an over-long subtag, inside a variant / attribute / type / tvalue / private tag), or a near-miss byte string (G3, case/separator transforms only); s' is s under a random case mask on ASCII letters, a random '-'/'_' mask, a permutation (with optional duplication) of the variant block and of the attribute block, a permutation of keyword blocks and of tfield blocks (distinct keys), a permutation of the tlang's variants and a swap of the whole -u- and -t- extensions - structural transforms are applied to the AST so both renderings denote the same identifier. Plus, exhaustively, every 'en-' + core-alphabet sequence paired with its upper-cased, '_'-separated image and, when it holds both -u- and -t-, with the image in which the two extensions are swapped (also when one of the two has an empty body). Plus the special words of other standards (grandfathered / redundant BCP 47 tags, POSIX names, withdrawn codes), bare and with three suffixes, under 40 case / separator images each. Oracle (metamorphic): both fail, or both parse to == values with identical to_string(), for Locale, (on the language-id part) LanguageIdentifier and (on the extension part alone) ExtensionsMap::from_bytes. Non-trivial = s != s' bytewise and a structural transform moved an element or the masks changed >= 2 positions. Distinctness: enumerated pairs by construction, generated pairs via a hash set over (s, s').";
 
 #[derive(Clone, Debug)]
 pub struct Tf {
